@@ -72,15 +72,19 @@ class Type(Scope):
     def require_inherit(self):
         return True
 
-    def get_overridden(self, field_name):
+    def get_overridden(self, field_name, visited=None):
         ret_list = []
         field_name = field_name.lower()
         for child in self.children:
             if field_name == child.name.lower():
                 ret_list.append(child)
                 break
-        if self.inherit_var is not None:
-            ret_list += self.inherit_var.get_overridden(field_name)
+        # Guard against types that (erroneously) extend each other
+        visited = [self] if visited is None else visited + [self]
+        if self.inherit_var is not None and all(
+            self.inherit_var is not obj for obj in visited
+        ):
+            ret_list += self.inherit_var.get_overridden(field_name, visited)
         return ret_list
 
     def check_valid_parent(self):
